@@ -357,6 +357,32 @@ def partial_heights(chk):
     return n
 
 
+def grid_index_sweep(chk):
+    """MANY (measurement height, layer count) pairs (the model enumerates small n exactly; quotients such as 9 / (9 / 7) round
+    just below the integer in floating point): the grid is strictly increasing, node n is the measurement height, node 0 the
+    roughness length, and the wind at node n is the supplied vector"""
+    from bldfm.pbl_model import vertical_profiles
+
+    n = 0
+    for closure in ("MOST", "CONSTANT"):
+        for zm in (2.0, 3.0, 9.0, 10.0, 12.5, 25.0, 33.3, 0.7):
+            for nlay in range(4, 61):
+                z, prof = vertical_profiles(nlay, zm, (2.0, -1.5), z0=0.01 * zm, mol=-80.0, closure=closure)
+                z = np.asarray(z, dtype=float).ravel()
+                u_, v_ = np.asarray(prof[0], dtype=float).ravel(), np.asarray(prof[1], dtype=float).ravel()
+                n += 1
+                if not (len(z) > nlay and np.isfinite(z).all() and (np.diff(z) > 0).all() and abs(z[nlay] - zm) <= 1e-9 * zm and abs(z[0] - 0.01 * zm) <= 1e-9 * zm
+                        and abs(u_[nlay] - 2.0) <= 1e-9 and abs(v_[nlay] + 1.5) <= 1e-9):
+                    sc = {"kind": "grid_index_sweep", "closure": closure, "n": nlay, "zm": zm}
+                    chk.case(json.dumps(sc, sort_keys=True))
+                    k_bad = int(np.argmin(np.diff(z))) if len(z) > 1 else 0
+                    chk.violation("vertical_profiles(n=%d, meas_height=%g, closure %s): the grid is not strictly increasing from z0 through the measurement height at node n (z[n-1], z[n], z[n+1] = %s; smallest spacing %.3g at node %d; wind at node n = (%.6g, %.6g))"
+                                  % (nlay, zm, closure, [float(x) for x in z[max(0, nlay - 1): nlay + 2]], float(np.min(np.diff(z))) if len(z) > 1 else float("nan"), k_bad, u_[min(nlay, len(u_) - 1)], v_[min(nlay, len(v_) - 1)]),
+                                  sc, klass={"check": "grid_index_sweep"})
+    chk.case("grid_index_sweep")
+    return n
+
+
 def interface_levels(chk):
     """interface.py reads level index nz as the measurement height: for every tower of a configuration, in one process"""
     from bldfm import parse_config_dict, run_bldfm_single
@@ -414,6 +440,7 @@ def main():
     chk.extra["stability_function_points"] = stability_functions(chk, t)
     chk.extra["argument_form_calls"] = argument_forms(chk, rng)
     chk.extra["partial_height_arguments"] = partial_heights(chk)
+    chk.extra["grid_index_sweep_calls"] = grid_index_sweep(chk)
     chk.extra["interface_towers"] = interface_levels(chk)
     chk.traces = len(pick)
     chk.sample(em[0])
